@@ -81,3 +81,19 @@ def bint_floordiv_range(o, k):
 def never(o, k):
     """findings matched by a solver-level predicate inside the check (see checks/*.py), not structurally"""
     return False
+
+
+def bint_domain_differs(o, k):
+    """interpretations disagree on the BOUND of a bounded-integer result (never on real/int kind or shape) for
+    programs that subtract bounded integers or reduce them with add/mul - the arithmetic whose Bint typing is
+    itself a known finding (KF-bint-sub-range, KF-bint-reduce-range)"""
+    import re
+    p = _prog_of(o)
+    d = o.get("detail", "")
+    if p is None or o.get("kind") != "side" or "DOMAIN" not in d:
+        return False
+    m = re.search(r"has output Bint\[(\d+)((?:,\d+)*)\], immediate evaluation Bint\[(\d+)((?:,\d+)*)\]", d)
+    if not m or m.group(2) != m.group(4):
+        return False
+    return any((n[0] == "binary" and n[1] == "sub" and _is_int(n[2]) and _is_int(n[3])) or
+               (n[0] == "reduce" and n[1] in ("add", "mul") and _is_int(n[2])) for n in _nodes(p))
